@@ -316,6 +316,13 @@ def templates():
         t.append((["Struct", [["z", z], ["t", ["name", "Int16ub"]]]], {}))
         t.append((["Sequence", [[None, B], [None, z], [None, B]]], {}))
         t.append((["Array", 2, ["Struct", [["z", z], ["t", B]]]], {}))
+    # a selector that is a sibling read from the data: without it the size is unknown, whatever the cases have in common
+    # (a value that selects no case takes the implicit default of no bytes)
+    for cases in ([[1, ["name", "Int16ub"]], [2, ["name", "Int16ul"]]], [[0, B], [3, B]], [[1, X], [2, ["Bytes", 3]]]):
+        t.append((["Struct", [["n0", B], ["body", ["Switch", ["this", "n0"], cases, None]]]], {}))
+        t.append((["Struct", [["n0", B], ["body", ["Switch", ["this", "n0"], cases, ["Bytes", 5]]], ["t", B]]], {}))
+        t.append((["Sequence", [["n0", B], [None, ["IfThenElse", ["bin", "==", ["this", "n0"], 1], cases[0][1], cases[1][1]]]]], {}))
+        t.append((["Struct", [["n0", B], ["xs", ["Array", 2, ["Switch", ["this", "_", "n0"] if False else ["this", "n0"], cases, None]]]]], {}))
     # tunnels have no size of their own, whatever the inner format's size; length-prefixed structures with several members
     for n in (0, 2):
         t.append((["Prefixed", B, ["Compressed", X, "zlib"], False], {"n": n}))
